@@ -127,7 +127,18 @@ func HarnessC02a() {
 		if verifBoundOr("INSERTONLY", 0) == 1 {
 			opsel = []int{0}
 		}
-		switch opsel[verifChoose("op", len(opsel))] {
+		op := 0
+		if seq := verifBoundOr("SEQ.c02", -1); seq >= 0 {
+			// scenario-directed run: the i-th operation is the i-th decimal digit of SEQ.c02
+			d := seq
+			for j := i + 1; j < K1; j++ {
+				d /= 10
+			}
+			op = d % 10
+		} else {
+			op = opsel[verifChoose("op", len(opsel))]
+		}
+		switch op {
 		case 0:
 			err := tgt.Insert(vctx, symKey{k}, v)
 			verifAssert("C01.insert.err", err == nil)
